@@ -10,30 +10,47 @@ package main
 //   C16 gw <K><E> <refs> => none | <ref>,<ref>,...          (one item per backendRef, in order)
 //     K     H HTTPRoute | T TCPRoute (v1alpha2)         both go through gateway.go createBackend
 //     E     e Endpoints | s EndpointSlices               (ConverterOptions.EnableEPSlices)
-//     refs  <weight>:<replicas>[:<skip>] ,...    weight `-` = backendRef.weight nil
+//     refs  <weight>:<eps>[:<skip>] ,...    weight `-` = backendRef.weight nil
+//           eps   <n>            n ready endpoints with the distinct addresses 1..n
+//                 @a.a/a.a       the ready endpoints AS LISTED, address ids 1..249; `/` separates the
+//                                EndpointSlices (E=s) or the subsets of the Endpoints (E=e) that list them;
+//                                an id may repeat inside a slice/subset and across them (overlapping slices)
+//                 ^<n> | ^@...   same, and the Endpoints object carries the annotation
+//                                haproxy-ingress.github.io/ip-override: every address resolves to id 250
+//                                (E=e only; with E=s there is no Endpoints object and nothing is overridden)
 //           skip: p backendRef.port nil | s Service missing | q port not declared by the Service
 //                 | e Endpoints/EndpointSlices object missing
-//     item  `-` no server carries an address of this ref | w.w.w the weights of its servers
+//     item  `-` no server carries an address of this ref | a=w.a=w the servers WRITTEN for it: address id =
+//           weight, one item per server (a repeated address gives as many items as servers were written),
+//           sorted by address id, then weight
 //     none  the route's backend does not exist
 //   Objects: GatewayClass haproxy, Gateway default/gw (one listener, allowedRoutes from Same), one route
-//   default/rt with one rule, Service default/s<i> with <replicas> ready addresses 10.<i+1>.0.<k+1> and
-//   one not-ready address 10.<i+1>.9.9 (must never become a server).
+//   default/rt with one rule, Service default/s<i> whose ready endpoint with address id a has the address
+//   10.<i+1>.0.<a> and one not-ready address 10.<i+1>.9.9 (must never become a server).  The servers are read
+//   back from the haproxy model (Backend.Endpoints: IP -> ref and address id, Weight).
 //
 //   C16 bg <mode> <initial> <ann> <eps> => - | w,w,...      (one weight per endpoint, in order)
 //     mode     `-` no blue-green-mode annotation | its value
 //     initial  `-` no initial-weight annotation (default 1) | its value
 //     ann      `-` no annotation | b:<text> blue-green-balance | d:<text> blue-green-deploy (the alias)
 //              | e:<text> blue-green-balance "" plus blue-green-deploy <text>       (%20 = blank)
-//     eps      `-` | <r|d>:<pod>,...   r ready, d not ready (drain-support: weight 0 before blue/green)
+//     eps      `-` | <r|d>:<pod>[@<a>],...   r ready, d not ready (drain-support: weight 0 before blue/green)
 //              pod: n address without targetRef | m targetRef of a pod that does not exist | 0 pod without
 //              labels | k=v+k=v labels of the pod
+//              @<a>: address id of the LISTED endpoint (default: its position k+1); ids may repeat (several
+//              pods behind one ip:port).  The ingress converter adds endpoints with AcquireEndpoint: one
+//              SERVER per address.  When every listed endpoint (>= 2) has the same id the Endpoints object
+//              gets the ip-override annotation (raw pod addresses 10.9.0.<k+1>), otherwise the address is
+//              repeated in the subset.
+//     output   one weight per SERVER (= distinct address), in address id order
 //   Objects: Ingress default/ing (one path) -> Service default/app:8080, Endpoints with addresses
-//   10.0.0.<k+1> (targetRef Pod default/pod<k>), Pods; global config drain-support=true.
+//   10.0.0.<a> (targetRef Pod default/pod<k>), Pods; global config drain-support=true.
 //   Output `NOBACKEND` / `w?` when the backend or a server is missing (the driver rejects them).
 //   PANIC when the real code panicked.
 
 import (
 	"fmt"
+	"sort"
 	"strconv"
 	"strings"
 
@@ -81,6 +98,13 @@ func c16Sync(cache *conv_helper.CacheMock, trk convtypes.Tracker, global map[str
 }
 
 func c16AddService(cache *conv_helper.CacheMock, ns, name string, withEndpoints, slices bool, ready, notReady []api.EndpointAddress) {
+	c16AddServiceGroups(cache, ns, name, withEndpoints, slices, [][]api.EndpointAddress{ready}, notReady, "")
+}
+
+// c16AddServiceGroups: the ready addresses are listed by one EndpointSlice (slices) or one subset of the
+// Endpoints object per group; the not-ready ones by the first; override = value of the ip-override annotation
+// of the Endpoints object ("" = none).
+func c16AddServiceGroups(cache *conv_helper.CacheMock, ns, name string, withEndpoints, slices bool, groups [][]api.EndpointAddress, notReady []api.EndpointAddress, override string) {
 	svc := &api.Service{
 		ObjectMeta: metav1.ObjectMeta{Namespace: ns, Name: name},
 		Spec: api.ServiceSpec{Ports: []api.ServicePort{{
@@ -90,49 +114,111 @@ func c16AddService(cache *conv_helper.CacheMock, ns, name string, withEndpoints,
 	if !withEndpoints {
 		return
 	}
+	if len(groups) == 0 {
+		groups = [][]api.EndpointAddress{nil}
+	}
 	key := ns + "/" + name
 	if slices {
-		pname, pport, proto := "p", int32(8080), api.ProtocolTCP
-		t, f := true, false
-		sl := &discoveryv1.EndpointSlice{
-			ObjectMeta:  metav1.ObjectMeta{Namespace: ns, Name: name + "-1", Labels: map[string]string{discoveryv1.LabelServiceName: name}},
-			AddressType: discoveryv1.AddressTypeIPv4,
-			Ports:       []discoveryv1.EndpointPort{{Name: &pname, Port: &pport, Protocol: &proto}},
-		}
-		for _, a := range ready {
-			sl.Endpoints = append(sl.Endpoints, discoveryv1.Endpoint{Addresses: []string{a.IP}, Conditions: discoveryv1.EndpointConditions{Ready: &t}, TargetRef: a.TargetRef})
-		}
-		for _, a := range notReady {
-			sl.Endpoints = append(sl.Endpoints, discoveryv1.Endpoint{Addresses: []string{a.IP}, Conditions: discoveryv1.EndpointConditions{Ready: &f}, TargetRef: a.TargetRef})
-		}
 		if cache.EpsList == nil {
 			cache.EpsList = map[string][]*discoveryv1.EndpointSlice{}
 		}
-		cache.EpsList[key] = []*discoveryv1.EndpointSlice{sl}
+		cache.EpsList[key] = nil
+		for g, ready := range groups {
+			pname, pport, proto := "p", int32(8080), api.ProtocolTCP
+			t, f := true, false
+			sl := &discoveryv1.EndpointSlice{
+				ObjectMeta:  metav1.ObjectMeta{Namespace: ns, Name: fmt.Sprintf("%s-%d", name, g+1), Labels: map[string]string{discoveryv1.LabelServiceName: name}},
+				AddressType: discoveryv1.AddressTypeIPv4,
+				Ports:       []discoveryv1.EndpointPort{{Name: &pname, Port: &pport, Protocol: &proto}},
+			}
+			for _, a := range ready {
+				sl.Endpoints = append(sl.Endpoints, discoveryv1.Endpoint{Addresses: []string{a.IP}, Conditions: discoveryv1.EndpointConditions{Ready: &t}, TargetRef: a.TargetRef})
+			}
+			if g == 0 {
+				for _, a := range notReady {
+					sl.Endpoints = append(sl.Endpoints, discoveryv1.Endpoint{Addresses: []string{a.IP}, Conditions: discoveryv1.EndpointConditions{Ready: &f}, TargetRef: a.TargetRef})
+				}
+			}
+			cache.EpsList[key] = append(cache.EpsList[key], sl)
+		}
 		return
 	}
-	cache.EpList[key] = &api.Endpoints{
-		ObjectMeta: metav1.ObjectMeta{Namespace: ns, Name: name},
-		Subsets: []api.EndpointSubset{{
-			Addresses:         ready,
-			NotReadyAddresses: notReady,
-			Ports:             []api.EndpointPort{{Name: "p", Port: 8080, Protocol: api.ProtocolTCP}},
-		}},
+	ep := &api.Endpoints{ObjectMeta: metav1.ObjectMeta{Namespace: ns, Name: name}}
+	if override != "" {
+		ep.Annotations = map[string]string{c16Prefix + "/ip-override": override}
 	}
+	for g, ready := range groups {
+		sub := api.EndpointSubset{
+			Addresses: ready,
+			Ports:     []api.EndpointPort{{Name: "p", Port: 8080, Protocol: api.ProtocolTCP}},
+		}
+		if g == 0 {
+			sub.NotReadyAddresses = notReady
+		}
+		ep.Subsets = append(ep.Subsets, sub)
+	}
+	cache.EpList[key] = ep
 }
 
 // ---------------------------------------------------------------- gateway createBackend
 
 type c16Ref struct {
-	Weight   string // "-" = nil
-	Replicas int
-	Skip     string // "", p, s, q, e
+	Weight   string  // "-" = nil
+	Replicas int     // used when Listed == nil: the distinct addresses 1..Replicas
+	Listed   [][]int // the ready endpoints as listed: address ids per EndpointSlice / subset (may repeat)
+	Override bool    // ip-override annotation on the Endpoints object
+	Skip     string  // "", p, s, q, e
+}
+
+// c16RefGroups: address ids per EndpointSlice / subset
+func c16RefGroups(r c16Ref) [][]int {
+	if r.Listed != nil {
+		return r.Listed
+	}
+	g := make([]int, r.Replicas)
+	for k := range g {
+		g[k] = k + 1
+	}
+	return [][]int{g}
+}
+
+// c16RefRepeats: the address ids the listing of the ref resolves to contain a repetition
+func c16RefRepeats(r c16Ref, slices bool) bool {
+	seen := map[int]bool{}
+	for _, g := range c16RefGroups(r) {
+		for _, a := range g {
+			if r.Override && !slices {
+				a = 250
+			}
+			if seen[a] {
+				return true
+			}
+			seen[a] = true
+		}
+	}
+	return false
 }
 
 func c16RefsText(refs []c16Ref) string {
 	s := make([]string, len(refs))
 	for i, r := range refs {
-		s[i] = r.Weight + ":" + strconv.Itoa(r.Replicas)
+		s[i] = r.Weight + ":"
+		if r.Override {
+			s[i] += "^"
+		}
+		if r.Listed != nil {
+			gs := make([]string, len(r.Listed))
+			for g, ids := range r.Listed {
+				t := make([]string, len(ids))
+				for k, a := range ids {
+					t[k] = strconv.Itoa(a)
+				}
+				gs[g] = strings.Join(t, ".")
+			}
+			s[i] += "@" + strings.Join(gs, "/")
+		} else {
+			s[i] += strconv.Itoa(r.Replicas)
+		}
 		if r.Skip != "" {
 			s[i] += ":" + r.Skip
 		}
@@ -150,11 +236,33 @@ func c16ParseRefs(s string) ([]c16Ref, bool) {
 		if len(p) < 2 || len(p) > 3 {
 			return nil, false
 		}
-		n, err := strconv.Atoi(p[1])
-		if err != nil {
-			return nil, false
+		r := c16Ref{Weight: p[0]}
+		spec := p[1]
+		if strings.HasPrefix(spec, "^") {
+			r.Override, spec = true, spec[1:]
 		}
-		r := c16Ref{Weight: p[0], Replicas: n}
+		if strings.HasPrefix(spec, "@") {
+			r.Listed = [][]int{}
+			for _, g := range strings.Split(spec[1:], "/") {
+				ids := []int{}
+				if g != "" {
+					for _, a := range strings.Split(g, ".") {
+						n, err := strconv.Atoi(a)
+						if err != nil || n < 1 || n > 249 {
+							return nil, false
+						}
+						ids = append(ids, n)
+					}
+				}
+				r.Listed = append(r.Listed, ids)
+			}
+		} else {
+			n, err := strconv.Atoi(spec)
+			if err != nil || n < 0 || n > 249 {
+				return nil, false
+			}
+			r.Replicas = n
+		}
 		if len(p) == 3 {
 			r.Skip = p[2]
 		}
@@ -210,12 +318,20 @@ func c16gwRun(kind string, refs []c16Ref) (out string) {
 		if r.Skip == "s" {
 			continue
 		}
-		var ready []api.EndpointAddress
-		for k := 0; k < r.Replicas; k++ {
-			ready = append(ready, api.EndpointAddress{IP: fmt.Sprintf("10.%d.0.%d", i+1, k+1)})
+		var groups [][]api.EndpointAddress
+		for _, ids := range c16RefGroups(r) {
+			ready := []api.EndpointAddress{}
+			for _, a := range ids {
+				ready = append(ready, api.EndpointAddress{IP: fmt.Sprintf("10.%d.0.%d", i+1, a)})
+			}
+			groups = append(groups, ready)
 		}
 		notReady := []api.EndpointAddress{{IP: fmt.Sprintf("10.%d.9.9", i+1)}}
-		c16AddService(cache, "default", name, r.Skip != "e", slices, ready, notReady)
+		override := ""
+		if r.Override {
+			override = fmt.Sprintf("10.%d.0.250", i+1)
+		}
+		c16AddServiceGroups(cache, "default", name, r.Skip != "e", slices, groups, notReady, override)
 	}
 	parents := []gatewayv1.ParentReference{{Name: "gw"}}
 	if tcp {
@@ -251,19 +367,30 @@ func c16gwRun(kind string, refs []c16Ref) (out string) {
 	if b == nil {
 		return "none"
 	}
-	per := make([][]string, len(refs))
+	// the servers WRITTEN, per ref: (address id, weight), one entry per server
+	per := make([][][2]int, len(refs))
 	for _, ep := range b.Endpoints {
 		var i, x, k int
 		if n, _ := fmt.Sscanf(ep.IP, "10.%d.%d.%d", &i, &x, &k); n != 3 || i < 1 || i > len(refs) || x != 0 {
 			return "w?" // a server that is not a ready address of one of the refs
 		}
-		per[i-1] = append(per[i-1], strconv.Itoa(ep.Weight))
+		per[i-1] = append(per[i-1], [2]int{k, ep.Weight})
 	}
 	items := make([]string, len(refs))
 	for i := range per {
 		items[i] = "-"
 		if len(per[i]) > 0 {
-			items[i] = strings.Join(per[i], ".")
+			sort.Slice(per[i], func(a, b int) bool {
+				if per[i][a][0] != per[i][b][0] {
+					return per[i][a][0] < per[i][b][0]
+				}
+				return per[i][a][1] < per[i][b][1]
+			})
+			t := make([]string, len(per[i]))
+			for k, sv := range per[i] {
+				t[k] = fmt.Sprintf("%d=%d", sv[0], sv[1])
+			}
+			items[i] = strings.Join(t, ".")
 		}
 	}
 	if len(items) == 0 {
@@ -284,12 +411,32 @@ func c16gwCase(c *ctx, kind string, refs []c16Ref) {
 	if out == "PANIC" {
 		c.stat("gw_panics", 1)
 	}
+	repeated, kept := false, 0
 	for _, r := range refs {
 		if r.Skip != "" {
 			c.stat("gw_skip_"+r.Skip, 1)
+		} else {
+			kept++
+			if c16RefRepeats(r, kind[1] == 's') {
+				repeated = true
+				c.stat("gw_refs_with_repeated_address", 1)
+			}
 		}
 		if r.Weight == "-" {
 			c.stat("gw_nil_weight_refs", 1)
+		}
+		if r.Override {
+			c.stat("gw_ip_override_refs", 1)
+		}
+		if len(r.Listed) > 1 {
+			c.stat("gw_refs_listed_by_several_slices", 1)
+		}
+	}
+	if repeated {
+		// some kept ref lists an ip:port more than once (overlapping slices / subsets, ip-override)
+		c.stat("gw_repeated_address_cases", 1)
+		if kept >= 2 {
+			c.stat("gw_repeated_address_cases_2plus_groups", 1)
 		}
 	}
 }
@@ -299,6 +446,28 @@ func c16gwCase(c *ctx, kind string, refs []c16Ref) {
 type c16Ep struct {
 	Drain bool
 	Pod   string // n | m | 0 | k=v+k=v
+	Addr  int    // address id of the listed endpoint; 0 = its position k+1
+}
+
+// c16EpAddr: the address id of the k-th listed endpoint
+func c16EpAddr(eps []c16Ep, k int) int {
+	if eps[k].Addr != 0 {
+		return eps[k].Addr
+	}
+	return k + 1
+}
+
+// c16EpsRepeat: some address id is listed more than once
+func c16EpsRepeat(eps []c16Ep) bool {
+	seen := map[int]bool{}
+	for k := range eps {
+		a := c16EpAddr(eps, k)
+		if seen[a] {
+			return true
+		}
+		seen[a] = true
+	}
+	return false
 }
 
 func c16EpsText(eps []c16Ep) string {
@@ -310,6 +479,9 @@ func c16EpsText(eps []c16Ep) string {
 		s[i] = "r:" + e.Pod
 		if e.Drain {
 			s[i] = "d:" + e.Pod
+		}
+		if e.Addr != 0 {
+			s[i] += "@" + strconv.Itoa(e.Addr)
 		}
 	}
 	return strings.Join(s, ",")
@@ -324,7 +496,15 @@ func c16ParseEps(s string) ([]c16Ep, bool) {
 		if len(t) < 3 || t[1] != ':' || (t[0] != 'r' && t[0] != 'd') {
 			return nil, false
 		}
-		eps = append(eps, c16Ep{Drain: t[0] == 'd', Pod: t[2:]})
+		e := c16Ep{Drain: t[0] == 'd', Pod: t[2:]}
+		if at := strings.IndexByte(e.Pod, '@'); at >= 0 {
+			n, err := strconv.Atoi(e.Pod[at+1:])
+			if err != nil || n < 1 || n > 249 {
+				return nil, false
+			}
+			e.Addr, e.Pod = n, e.Pod[:at]
+		}
+		eps = append(eps, e)
 	}
 	return eps, true
 }
@@ -359,9 +539,22 @@ func c16bgRun(mode, initial, ann string, eps []c16Ep) (out string) {
 			anns[c16Prefix+"/blue-green-deploy"] = text
 		}
 	}
+	// every listed endpoint (>= 2) behind ONE address: the ip-override annotation, raw pod addresses differ
+	override := ""
+	if len(eps) >= 2 {
+		override = fmt.Sprintf("10.0.0.%d", c16EpAddr(eps, 0))
+		for k := range eps {
+			if c16EpAddr(eps, k) != c16EpAddr(eps, 0) {
+				override = ""
+			}
+		}
+	}
 	var ready, notReady []api.EndpointAddress
 	for k, e := range eps {
-		a := api.EndpointAddress{IP: fmt.Sprintf("10.0.0.%d", k+1)}
+		a := api.EndpointAddress{IP: fmt.Sprintf("10.0.0.%d", c16EpAddr(eps, k))}
+		if override != "" {
+			a.IP = fmt.Sprintf("10.9.0.%d", k+1)
+		}
 		if e.Pod != "n" {
 			name := fmt.Sprintf("pod%d", k)
 			a.TargetRef = &api.ObjectReference{Kind: "Pod", Namespace: "default", Name: name}
@@ -385,7 +578,7 @@ func c16bgRun(mode, initial, ann string, eps []c16Ep) (out string) {
 			ready = append(ready, a)
 		}
 	}
-	c16AddService(cache, "default", "app", true, false, ready, notReady)
+	c16AddServiceGroups(cache, "default", "app", true, false, [][]api.EndpointAddress{ready}, notReady, override)
 	pt := networking.PathTypePrefix
 	cache.IngList = append(cache.IngList, &networking.Ingress{
 		ObjectMeta: metav1.ObjectMeta{Namespace: "default", Name: "ing", Annotations: anns},
@@ -409,16 +602,30 @@ func c16bgRun(mode, initial, ann string, eps []c16Ep) (out string) {
 		}
 		return "-"
 	}
-	ws := make([]string, len(eps))
+	// one weight per SERVER; every distinct listed address must have exactly one, nothing else may exist
+	var addrs []int
+	listed := map[int]bool{}
 	for k := range eps {
-		ws[k] = "w?"
+		if a := c16EpAddr(eps, k); !listed[a] {
+			listed[a] = true
+			addrs = append(addrs, a)
+		}
 	}
+	sort.Ints(addrs)
+	written := map[int]string{}
 	for _, ep := range b.Endpoints {
-		var k int
-		if n, _ := fmt.Sscanf(ep.IP, "10.0.0.%d", &k); n != 1 || k < 1 || k > len(eps) || ws[k-1] != "w?" {
+		var a int
+		if n, _ := fmt.Sscanf(ep.IP, "10.0.0.%d", &a); n != 1 || !listed[a] || written[a] != "" {
 			return "w?"
 		}
-		ws[k-1] = strconv.Itoa(ep.Weight)
+		written[a] = strconv.Itoa(ep.Weight)
+	}
+	ws := make([]string, len(addrs))
+	for k, a := range addrs {
+		ws[k] = written[a]
+		if ws[k] == "" {
+			ws[k] = "w?"
+		}
 	}
 	return strings.Join(ws, ",")
 }
@@ -431,6 +638,10 @@ func c16bgCase(c *ctx, mode, initial, ann string, eps []c16Ep) {
 	c.stat(fmt.Sprintf("bg_eps_%d", len(eps)), 1)
 	if out == "PANIC" {
 		c.stat("bg_panics", 1)
+	}
+	if c16EpsRepeat(eps) {
+		// several listed endpoints behind one ip:port: AcquireEndpoint keeps one server per address
+		c.stat("bg_repeated_address_cases", 1)
 	}
 	if c16bgOverlap(initial, ann, eps) {
 		// a pod matching several entries: outside the property's domain, the oracle judges only the range
@@ -495,6 +706,156 @@ func c16callersReplay(c *ctx, a []string) bool {
 
 func c16ref(w string, n int) c16Ref { return c16Ref{Weight: w, Replicas: n} }
 
+// c16listed: a ref whose ready endpoints are listed by the given EndpointSlices / subsets (address ids)
+func c16listed(w string, groups ...[]int) c16Ref {
+	r := c16Ref{Weight: w, Listed: [][]int{}}
+	for _, g := range groups {
+		r.Listed = append(r.Listed, append([]int{}, g...))
+	}
+	if len(groups) == 0 {
+		r.Listed = [][]int{{}}
+	}
+	return r
+}
+
+// c16split: the listing cut into two slices / subsets after `at` endpoints (at <= 0 or >= len: one slice)
+func c16split(w string, ids []int, at int) c16Ref {
+	if at <= 0 || at >= len(ids) {
+		return c16listed(w, ids)
+	}
+	return c16listed(w, ids[:at], ids[at:])
+}
+
+// c16lists: every listing of 0..maxLen endpoints over the address ids 1..ids
+func c16lists(ids, maxLen int) [][]int {
+	res := [][]int{{}}
+	last := res
+	for l := 1; l <= maxLen; l++ {
+		var next [][]int
+		for _, p := range last {
+			for a := 1; a <= ids; a++ {
+				next = append(next, append(append([]int{}, p...), a))
+			}
+		}
+		res = append(res, next...)
+		last = next
+	}
+	return res
+}
+
+// c16GwRepeatExhaustive: 2 and 3 backendRefs whose services list an ip:port more than once
+func c16GwRepeatExhaustive(c *ctx) {
+	kinds := []string{"He", "Hs", "Te", "Ts"}
+	n := 0
+	kind := func() string { n++; return kinds[n%4] }
+	ws := []string{"-", "0", "1", "3", "128"}
+	lists := c16lists(2, 3)
+	if c.thorough() {
+		ws = []string{"-", "0", "1", "2", "3", "7", "128", "256"}
+		lists = c16lists(2, 4)
+	}
+	// two refs: every listing over two addresses for the first, {one address, the same address twice, two
+	// distinct, two + a repetition} for the second, in both orders; the cut between slices rotates
+	seconds := [][]int{{1}, {1, 1}, {1, 2}, {2, 1, 2}}
+	for _, w1 := range ws {
+		for _, w2 := range ws {
+			for _, l1 := range lists {
+				for _, l2 := range seconds {
+					n++
+					a, b := c16split(w1, l1, n%4), c16split(w2, l2, (n/4)%3)
+					if n%2 == 0 {
+						a, b = b, a
+					}
+					c16gwCase(c, kind(), []c16Ref{a, b})
+				}
+			}
+		}
+	}
+	// ip-override on one or both refs (Endpoints reader: n replicas behind one address)
+	for _, w1 := range ws {
+		for _, w2 := range ws {
+			for l1 := 0; l1 <= 3; l1++ {
+				for l2 := 1; l2 <= 3; l2++ {
+					n++
+					k := kinds[(n%2)*2] // He, Te
+					if n%5 == 0 {
+						k = kinds[(n%2)*2+1] // the EndpointSlice reader ignores the annotation
+					}
+					c16gwCase(c, k, []c16Ref{{Weight: w1, Replicas: l1, Override: true}, {Weight: w2, Replicas: l2, Override: n%3 == 0}})
+				}
+			}
+		}
+	}
+	// three refs
+	ws3 := []string{"-", "2", "0"}
+	ls3 := [][]int{{1}, {1, 1}, {1, 2, 1}}
+	if c.thorough() {
+		ws3 = []string{"-", "1", "2", "0", "5"}
+		ls3 = [][]int{{}, {1}, {1, 1}, {1, 2, 1}, {1, 1, 1, 2}}
+	}
+	for _, w1 := range ws3 {
+		for _, w2 := range ws3 {
+			for _, w3 := range ws3 {
+				for _, l1 := range ls3 {
+					for _, l2 := range ls3 {
+						for _, l3 := range ls3 {
+							n++
+							c16gwCase(c, kind(), []c16Ref{c16split(w1, l1, n%3), c16split(w2, l2, (n/3)%3), c16split(w3, l3, (n/9)%3)})
+						}
+					}
+				}
+			}
+		}
+	}
+	c.stat("gw_repeat_exhaustive", 1)
+}
+
+// c16BgRepeatExhaustive: two entries, 2..3 listed endpoints over the addresses {1,2} x group {a,b} x ready/not
+func c16BgRepeatExhaustive(c *ctx) {
+	type opt struct {
+		addr  int
+		pod   string
+		drain bool
+	}
+	var opts []opt
+	for _, a := range []int{1, 2} {
+		for _, g := range []string{"g=a", "g=b"} {
+			for _, d := range []bool{false, true} {
+				opts = append(opts, opt{a, g, d})
+			}
+		}
+	}
+	var listings [][]c16Ep
+	var rec func(cur []c16Ep, left int)
+	rec = func(cur []c16Ep, left int) {
+		if len(cur) >= 2 {
+			listings = append(listings, append([]c16Ep{}, cur...))
+		}
+		if left == 0 {
+			return
+		}
+		for _, o := range opts {
+			rec(append(cur, c16Ep{Drain: o.drain, Pod: o.pod, Addr: o.addr}), left-1)
+		}
+	}
+	rec(nil, 3)
+	cfgs := [][3]string{{"-", "-", "b:g=a=1,g=b=1"}, {"-", "100", "b:g=a=3,g=b=1"}, {"pod", "-", "b:g=a=0,g=b=5"}}
+	if c.thorough() {
+		cfgs = append(cfgs, [3]string{"deploy", "7", "b:g=b=256,g=a=1"}, [3]string{"pod", "100", "b:g=a=3,g=b=1"}, [3]string{"-", "-", "b:g=a=0,g=b=5"})
+	}
+	n := 0
+	for _, l := range listings {
+		for _, cf := range cfgs {
+			n++
+			if !c.thorough() && len(l) == 3 && n%3 != 0 {
+				continue // quick: a third of the three-endpoint listings per configuration
+			}
+			c16bgCase(c, cf[0], cf[1], cf[2], l)
+		}
+	}
+	c.stat("bg_repeat_exhaustive", 1)
+}
+
 // c16pods: n pods labelled g=<group>
 func c16pods(group string, n int) []c16Ep {
 	var eps []c16Ep
@@ -515,6 +876,24 @@ func c16CallersCorpus(c *ctx) {
 	c16gwCase(c, "He", nil)
 	// Gateway API allows weights up to 1000000
 	c16gwCase(c, "He", []c16Ref{c16ref("1000000", 3), c16ref("1", 1), c16ref("-", 2)})
+	// an ip:port listed more than once by ONE service (seed C16e: the servers of a backendRef were deduplicated
+	// after Length: len(epready) was taken, the group got M/N of its share). Minimised failing input first:
+	// weights 3:1, the first service lists its only address twice
+	c16gwCase(c, "He", []c16Ref{c16listed("3", []int{1, 1}), c16ref("1", 1)})
+	// overlapping EndpointSlices: four pods, one of them listed by two slices; 3:1
+	c16gwCase(c, "Hs", []c16Ref{c16listed("3", []int{1, 2, 3}, []int{3, 4}), c16ref("1", 1)})
+	// ip-override: three replicas behind one address, 1:1 with two plain pods; the EndpointSlice reader ignores it
+	c16gwCase(c, "He", []c16Ref{{Weight: "1", Replicas: 3, Override: true}, c16ref("1", 2)})
+	c16gwCase(c, "Hs", []c16Ref{{Weight: "1", Replicas: 3, Override: true}, c16ref("1", 2)})
+	c16gwCase(c, "Te", []c16Ref{c16listed("3", []int{1}, []int{1}), {Weight: "1", Listed: [][]int{{2, 2}}, Skip: "s"}, c16ref("-", 1)})
+	c16gwCase(c, "Ts", []c16Ref{c16listed("0", []int{1, 1}), c16listed("-", []int{2, 1, 2}), c16listed("5", []int{})})
+	// blue/green: the ingress converter adds endpoints with AcquireEndpoint, one server per ip:port, BEFORE the
+	// group lengths are counted: three blue pods behind one address count as one replica
+	c16bgCase(c, "-", "-", "b:g=blue=1,g=green=1", []c16Ep{{Pod: "g=blue", Addr: 1}, {Pod: "g=blue", Addr: 1}, {Pod: "g=blue", Addr: 1}, {Pod: "g=green", Addr: 2}, {Pod: "g=green", Addr: 3}})
+	c16bgCase(c, "-", "-", "b:g=blue=1,g=green=1", []c16Ep{{Pod: "g=blue", Addr: 1}, {Pod: "g=blue", Addr: 1}, {Pod: "g=blue", Addr: 1}})
+	// the first READY listing names the pod of the shared server; a not-ready listing of the address drains it
+	c16bgCase(c, "-", "100", "b:g=blue=1,g=green=4", []c16Ep{{Pod: "g=blue", Addr: 2}, {Drain: true, Pod: "g=green", Addr: 2}, {Pod: "g=green", Addr: 1}, {Pod: "g=blue", Addr: 1}})
+	c16bgCase(c, "pod", "100", "b:g=blue=1,g=green=4", []c16Ep{{Drain: true, Pod: "g=blue", Addr: 1}, {Pod: "g=green", Addr: 1}, {Pod: "g=blue", Addr: 2}, {Pod: "n", Addr: 2}})
 	// blue/green: the documented example, both modes
 	two := append(c16pods("blue", 1), c16pods("green", 3)...)
 	c16bgCase(c, "-", "-", "b:g=blue=1,g=green=4", two)
@@ -625,6 +1004,22 @@ func c16GwRandom(c *ctx, r *gen.Rng, n int) {
 			if r.Chance(1, 8) {
 				refs[j].Skip = gen.Pick(r, []string{"p", "s", "q", "e"})
 			}
+			switch r.Intn(6) {
+			case 0, 1:
+				// the endpoints as listed: ids from a pool smaller than the listing (repetitions), 1..3 slices
+				nl := refs[j].Replicas
+				pool := r.Range(1, nl+1)
+				refs[j].Listed = [][]int{{}}
+				for e := 0; e < nl; e++ {
+					if e > 0 && len(refs[j].Listed) < 3 && r.Chance(1, 3) {
+						refs[j].Listed = append(refs[j].Listed, []int{})
+					}
+					last := len(refs[j].Listed) - 1
+					refs[j].Listed[last] = append(refs[j].Listed[last], r.Range(1, pool))
+				}
+			case 2:
+				refs[j].Override = r.Chance(1, 2)
+			}
 		}
 		c16gwCase(c, gen.Pick(r, kinds), refs)
 	}
@@ -712,6 +1107,13 @@ func c16BgRandom(c *ctx, r *gen.Rng, n int) {
 				eps[j].Pod = gen.Pick(r, names) + "=" + gen.Pick(r, values)
 			}
 		}
+		if ne >= 2 && r.Chance(1, 4) {
+			// several listed endpoints behind one ip:port
+			pool := r.Range(1, ne)
+			for j := range eps {
+				eps[j].Addr = r.Range(1, pool)
+			}
+		}
 		mode := gen.Pick(r, []string{"-", "-", "deploy", "pod", "pod", "canary", "Pod"})
 		initial := gen.Pick(r, []string{"-", "1", "2", "7", "100", "128", "256"})
 		switch r.Intn(20) {
@@ -730,7 +1132,9 @@ func c16BgRandom(c *ctx, r *gen.Rng, n int) {
 func runC16Callers(c *ctx) {
 	c16CallersCorpus(c)
 	c16GwExhaustive(c)
+	c16GwRepeatExhaustive(c)
 	c16BgExhaustive(c)
+	c16BgRepeatExhaustive(c)
 	r := gen.New(c.seed ^ 0xC16CA11E)
 	ngw, nbg := 1200, 1500
 	if c.thorough() {
